@@ -1,4 +1,5 @@
 """C17 — curvature output is a consistent principal frame, invariant under similarity."""
+import itertools
 import numpy as np
 
 from .. import repo, core, gen, wire, extract, capture
@@ -48,7 +49,10 @@ class Check(BaseCheck):
 
     def correspond(self, drv, stats):
         fails = []
-        for case in oriented_cases(self.seed + 121, 10 if self.quick else 1200):
+        # one mesh beyond 2^15 vertices (block-wise / chunked code paths), then the random families
+        bv, bt = gen.torus(220, 190)
+        big = [dict(v=bv @ gen.random_rotation(gen.rng_for(self.seed, "c17big")).T, t=bt, name="torus220x190", smoothit=1)]
+        for case in itertools.chain(big, oriented_cases(self.seed + 121, 10 if self.quick else 1200)):
             v, t, sm = case["v"], case["t"], case["smoothit"]
             gen.use(case)
             stats.case(core.mesh_key(v, t, sm), cls=["class:" + case["name"], "smoothit:%d" % sm], sample=dict(name=case["name"], nv=len(v), smoothit=sm))
@@ -56,8 +60,8 @@ class Check(BaseCheck):
                 m, calls, out, vn = run_curv(v, t, sm)
             except Exception as e:  # noqa: BLE001
                 fails.append(core.Failure("correspondence", "curvature vs model", "raised %s: %s" % (type(e).__name__, e), case)); continue
-            if len(calls.eig) != 1:
-                fails.append(core.Failure("correspondence", "curvature vs model", "%d eig calls" % len(calls.eig), case)); continue
+            if len(calls.eig) != 1 or len(calls.eig[0][1]) != len(v):
+                fails.append(core.Failure("correspondence", "curvature vs model", "%d eig calls covering %s of %d vertices" % (len(calls.eig), [len(c[1]) for c in calls.eig][:3], len(v)), case)); continue
             mats, evals, evecs = calls.eig[0]
             evals = np.real(evals); evecs = np.real(evecs)
             # monitor of the eig contract: orthonormal eigenbasis
@@ -98,6 +102,8 @@ class Check(BaseCheck):
 
     def search_cases(self):
         yield from oriented_cases(self.seed + 122, 10 if self.quick else 80)
+        bv, bt = gen.torus(220, 190)
+        yield dict(v=bv @ gen.random_rotation(gen.rng_for(self.seed, "c17big")).T, t=bt, name="torus220x190", smoothit=1)
         rng = gen.rng_for(self.seed, "c17shape")
         for k in range(2 if self.quick else 8):          # sharp creases with very unequal triangle sizes on the two sides
             h = float(rng.uniform(0.04, 0.08))
@@ -156,6 +162,8 @@ class Check(BaseCheck):
         mats, evals, evecs = calls.eig[0]
         gram = np.einsum("vij,vik->vjk", np.real(evecs), np.real(evecs))
         good = np.max(np.abs(gram - np.eye(3)), axis=(1, 2)) < 1e-6
+        if len(good) != len(v):          # the decomposition was not done in one call: judge every vertex
+            good = np.ones(len(v), dtype=bool)
         aligned = np.abs(np.einsum("ij,ij->i", normals, vn)) > 1e-9
         g = good & aligned
         if np.any(c_min > c_max + 1e-12):
@@ -163,7 +171,7 @@ class Check(BaseCheck):
         if np.max(np.abs(c_mean - (c_min + c_max) / 2)) > 1e-10 * max(1, np.abs(c_max).max()) or np.max(np.abs(c_gauss - c_min * c_max)) > 1e-10 * max(1, np.abs(c_max).max() ** 2):
             return core.Violation("mean-gauss", "mean / Gauss curvature are not (c_min+c_max)/2 and c_min*c_max", case)
         for nm, a in (("u_min", u_min), ("u_max", u_max), ("normal", normals)):
-            if np.max(np.abs(np.linalg.norm(a[g], axis=1) - 1)) > 1e-7:
+            if np.max(np.abs(np.linalg.norm(a[good], axis=1) - 1)) > 1e-7:          # unit length wherever the eigenbasis is orthonormal
                 return core.Violation("unit", "%s not unit" % nm, case)
         for nm, a, b in (("u_min.u_max", u_min, u_max), ("u_min.n", u_min, normals), ("u_max.n", u_max, normals)):
             if np.max(np.abs(np.einsum("ij,ij->i", a[g], b[g]))) > 1e-6:
